@@ -106,6 +106,37 @@ def install():
 
     bl.SymbolicBool.to_bytes = _bool_to_bytes
 
+    # ---------------------------------------------------------------- 6
+    # bytes.split(sep) on a symbolic byte string with a concrete separator: CrossHair
+    # realises the whole string; this keeps the content symbolic (forks per candidate match).
+    def _sym_split(self, sep=None, maxsplit=-1):
+        with NoTracing():
+            plain = (sep is None or maxsplit != -1 or not isinstance(sep, (bytes, bytearray))
+                     or len(sep) == 0)
+        if plain:
+            return realize(self).split(realize(sep), realize(maxsplit))
+        n = realize(len(self))
+        m = len(sep)
+        out = []
+        start = 0
+        i = 0
+        while i + m <= n:
+            hit = True
+            for j in range(m):
+                if self[i + j] != sep[j]:
+                    hit = False
+                    break
+            if hit:
+                out.append(self[start:i])
+                i += m
+                start = i
+            else:
+                i += 1
+        out.append(self[start:])
+        return out
+
+    SymbolicBytes.split = _sym_split
+
     # ---------------------------------------------------------------- 2b
     _orig_from_bytes = core._PATCH_REGISTRATIONS.get(int.from_bytes)
 
